@@ -218,6 +218,15 @@ class Run:
     # --- finish
     def finish(self, extra_cov=None):
         cov = self.cov
+        try:        # second-solver cross-check of the kernel queries (engines/mirsym/kernels.py), if it ran
+            k = sys.modules.get("kernels")
+            if k is not None and k.CROSS["n"]:
+                cov["cvc5_cross_check"] = {"queries_seen": k.CROSS["n"], "sent_to_cvc5": k.CROSS["checked"] + k.CROSS["skipped"], "agreed": k.CROSS["agree"],
+                                           "no_answer": k.CROSS["skipped"], "disagreements": len(k.CROSS["disagree"])}
+                for zv, cv, _ in k.CROSS["disagree"][:3]:
+                    self.engine_error(f"solver disagreement on a kernel query: z3 {zv}, cvc5 {cv}")
+        except Exception:
+            pass
         if extra_cov:
             cov.update(extra_cov)
         cov["solver_time_s"] = round(cov["solver_time_s"], 3)
